@@ -298,8 +298,8 @@ def run(cfg, w):
         return
     if should_raise and not unspecified:
         w.ob("faulty_data_must_be_refused", False, info=f"dup={v['dup']} unknown={v['has_unknown']} missing={len(v['missing'])} always={v['must_raise_always']}")
+    w.ob("shape", np.shape(y.values) == dims.shape)
     if np.shape(y.values) != dims.shape:
-        w.ob("shape", False)
         return
     if unspecified:
         return
